@@ -527,6 +527,11 @@ class Exec(ExprMixin, CallMixin):
                         if k in ("_i", "_it"):
                             c.locals[k] = saved[k]
 
+            # 0. lemmas: proved at loop entry, then available (they must only
+            #    mention state the loop does not modify)
+            for lname, lsrc in (spec.get("lemmas") or {}).items():
+                t = self.truth(self._spec_eval(lsrc))
+                c.oblige(f"lemma:{fname}:loop{ordn}:{lname}", t, kind="lemma", line=s.lineno)
             # 1. invariant holds on entry
             eval_invs(z3.IntVal(0) if guard is None else None, "inv-init", True)
             # 2. arbitrary iteration / exit
